@@ -445,9 +445,23 @@ def _descendants(n, edges):
     return out
 
 
+def _explore(ctx, strategy, check, total, chunk=300):
+    """
+    ctx.given in chunks of ``chunk`` cases (quick tier: exactly one chunk, label 'main'): once the time budget is
+    used up Hypothesis still *generates* the remaining examples of a run, which for the thorough case counts takes
+    longer than the runner's hard timeout
+    """
+    k = 0
+    while total > 0 and not ctx.out_of_time():
+        n = min(chunk, total)
+        ctx.given(strategy, check, n, label='main' if k == 0 else f'main{k}')
+        total -= n
+        k += 1
+
+
 def run_shard(ctx):
     harness.quiet()
-    ctx.given(cases(), check_case, ctx.scale(2400, 60000), label='main')
+    _explore(ctx, cases(), check_case, ctx.scale(2400, 60000))
 
 
 def replay(case, ctx):
